@@ -1,6 +1,7 @@
 SPECIFICATION Spec
 CHECK_DEADLOCK FALSE
 INVARIANT RefLaw
+INVARIANT RefLawSimple
 INVARIANT RefStable
 INVARIANT Refuses
 INVARIANT Emit
@@ -12,5 +13,6 @@ CONSTANTS
   RuleTypes = {1, 3, 4}
   LigLens = {1, 2, 3}
   Kinds = {"ttf", "cff", "cid"}
+  TextSel = "mix"
   Flags = TRUE
   Quiet = FALSE
